@@ -498,10 +498,44 @@ theorem copyAs_nonhll (p : Params) (s : St ν) (t : TType) (hm : s.mode ≠ .hll
   | list => rfl
   | set => rfl
 
+/-- what `union_impl` needs to know about an HLL-mode source: its registers are the per-slot maxima of its coupons and its
+HLL_8 copy is a good gadget -/
+structure SrcH (p : Params) (lgMaxK : Nat) (src : St ν) (S : Nat → Prop) : Prop where
+  lgk : src.lgK = lgMaxK
+  size : src.regs.size = 2^src.lgK
+  regs : ∀ i, i < 2^src.lgK → IsMaxAt p src.lgK S i (src.regs.getD i 0)
+  copy : GH p (copyAs p src .h8) S
+  copy_lgk : (copyAs p src .h8).lgK = src.lgK
+
+theorem SrcH.of_HInv {p : Params} {lgMaxK : Nat} {src : St ν} {S : Nat → Prop} (hm : src.mode = .hll) (h : HInv p src S)
+    (hl : src.lgK = lgMaxK) (hkb : lgMaxK ≤ p.keyBits) : SrcH p lgMaxK src S :=
+  have c := copyAs_h8_GH hm h (by rw [hl]; exact hkb)
+  ⟨hl, h.size, h.regs, c.1, c.2⟩
+
+/-- a gadget (HLL_8, possibly with a pending rebuild) as the source of `union_impl` (rvalue adoption swaps the two) -/
+theorem SrcH.of_GH {p : Params} {lgMaxK : Nat} {g : St ν} {S : Nat → Prop} (h : GH p g S) (hl : g.lgK = lgMaxK)
+    (hkb : lgMaxK ≤ p.keyBits) : SrcH p lgMaxK g S := by
+  have hpre := copyAs_preserves p g .h8 (fun _ => h.size) (by rw [hl]; exact hkb)
+  obtain ⟨pm, pk, ptt, pregs, _⟩ := hpre
+  refine ⟨hl, h.size, h.regs, ?_, pk⟩
+  by_cases hc : TType.h8 = g.tt ∧ g.rebuild = false
+  · have e : copyAs p g .h8 = g := by unfold copyAs; rw [h.mode]; simp only; rw [if_pos hc]
+    rw [e]; exact h
+  · have e : copyAs p g .h8 = convertTo p g .h8 := by unfold copyAs; rw [h.mode]; simp only; rw [if_neg hc]
+    have hcnt := convertTo_h8_counts p g h.size
+    rw [← e] at hcnt
+    refine ⟨pm.trans h.mode, ptt, by rw [pregs, pk]; exact h.size, by rw [pregs, pk]; exact h.regs, ?_, ?_⟩
+    · rw [hcnt.2, pk, ← h.size]; exact Array.count_le_size
+    · intro he
+      rw [isEmpty_hll (pm.trans h.mode), hcnt.2, pk] at he
+      rw [pregs, pk]
+      intro slot hs
+      exact count_zero_eq_size_iff (by rw [he.2, h.size]) slot (by rw [h.size]; exact hs)
+
 theorem GInv.unionImpl {p : Params} (hp : p.listFitsSet) {lgMaxK : Nat} (hkb : lgMaxK ≤ p.keyBits) {u : Un ν} {cs : List Nat}
     (hu : u.lgMaxK = lgMaxK) (h : GInv p lgMaxK u.gadget cs) (src : St ν) (scs : List Nat)
     (hsl : src.mode ≠ .hll → RInv p src.lgK src scs)
-    (hsh : src.mode = .hll → HInv p src (fun c => c ∈ scs ∧ c ≠ 0) ∧ src.lgK = lgMaxK)
+    (hsh : src.mode = .hll → SrcH p lgMaxK src (fun c => c ∈ scs ∧ c ≠ 0))
     (hpos : ∀ c, c ∈ scs → c ≠ 0 → 0 < cValue p c) :
     GInv p lgMaxK (DS.Hll.unionImpl p u src).gadget (cs ++ scs) ∧ (DS.Hll.unionImpl p u src).lgMaxK = lgMaxK := by
   have hposall : ∀ c, c ∈ cs ++ scs → c ≠ 0 → 0 < cValue p c := by
@@ -558,11 +592,11 @@ theorem GInv.unionImpl {p : Params} (hp : p.listFitsSet) {lgMaxK : Nat} (hkb : l
       | hll => rfl
       | list => exact absurd (by rw [hx]; simp) hm
       | set => exact absurd (by rw [hx]; simp) hm
-    obtain ⟨hH, hlk⟩ := hsh hm'
-    have hkb' : src.lgK ≤ p.keyBits := by rw [hlk]; exact hkb
+    have hH := hsh hm'
+    have hlk := hH.lgk
     have hcopy : copyOrDownsample p src u.lgMaxK = copyAs p src .h8 := by
       unfold copyOrDownsample; rw [if_pos (by rw [hu, hlk]; exact Nat.le_refl _)]
-    have hcg := copyAs_h8_GH hm' hH hkb'
+    have hcg : GH p (copyAs p src .h8) (fun c => c ∈ scs ∧ c ≠ 0) ∧ (copyAs p src .h8).lgK = src.lgK := ⟨hH.copy, hH.copy_lgk⟩
     by_cases he : isEmpty u.gadget = true
     · -- the empty gadget is replaced by a copy of the HLL input
       have : (!isEmpty u.gadget) = false := by rw [he]; rfl
@@ -642,7 +676,7 @@ theorem GInv.unionImpl {p : Params} (hp : p.listFitsSet) {lgMaxK : Nat} (hkb : l
 theorem GInv.unionUpdate {p : Params} (hp : p.listFitsSet) {lgMaxK : Nat} (hkb : lgMaxK ≤ p.keyBits) {u : Un ν} {cs : List Nat}
     (hu : u.lgMaxK = lgMaxK) (h : GInv p lgMaxK u.gadget cs) (src : St ν) (scs : List Nat)
     (hsl : src.mode ≠ .hll → RInv p src.lgK src scs)
-    (hsh : src.mode = .hll → HInv p src (fun c => c ∈ scs ∧ c ≠ 0) ∧ src.lgK = lgMaxK)
+    (hsh : src.mode = .hll → SrcH p lgMaxK src (fun c => c ∈ scs ∧ c ≠ 0))
     (hpos : ∀ c, c ∈ scs → c ≠ 0 → 0 < cValue p c)
     (hemp : isEmpty src = true → ∀ c, c ∈ scs → c = 0) :
     GInv p lgMaxK (DS.Hll.unionUpdate p u src).gadget (cs ++ scs) ∧ (DS.Hll.unionUpdate p u src).lgMaxK = lgMaxK := by
@@ -664,6 +698,66 @@ theorem GInv.unionUpdate {p : Params} (hp : p.listFitsSet) {lgMaxK : Nat} (hkb :
   · rw [if_neg he]
     exact h.unionImpl hp hkb hu src scs hsl hsh hpos
 
+/-- `update(hll_sketch&&)`: the adoption shortcut swaps gadget and argument and then merges the old gadget back -/
+theorem GInv.unionUpdateRv {p : Params} (hp : p.listFitsSet) {lgMaxK : Nat} (hkb : lgMaxK ≤ p.keyBits) {u : Un ν} {cs : List Nat}
+    (hu : u.lgMaxK = lgMaxK) (h : GInv p lgMaxK u.gadget cs) (src : St ν) (scs : List Nat)
+    (hsl : src.mode ≠ .hll → RInv p src.lgK src scs)
+    (hsh : src.mode = .hll → SrcH p lgMaxK src (fun c => c ∈ scs ∧ c ≠ 0) ∧ HInv p src (fun c => c ∈ scs ∧ c ≠ 0))
+    (hpos : ∀ c, c ∈ scs → c ≠ 0 → 0 < cValue p c)
+    (hemp : isEmpty src = true → ∀ c, c ∈ scs → c = 0) :
+    GInv p lgMaxK (DS.Hll.unionUpdateRv p u src).gadget (cs ++ scs) ∧ (DS.Hll.unionUpdateRv p u src).lgMaxK = lgMaxK := by
+  unfold DS.Hll.unionUpdateRv
+  by_cases he : isEmpty src = true
+  · rw [if_pos he]
+    refine ⟨h.congr ?_ ?_, hu⟩
+    · intro c hc
+      simp only [List.mem_append]
+      constructor
+      · intro h1; exact Or.inl h1
+      · rintro (h1 | h1)
+        · exact h1
+        · exact absurd (hemp he c h1) hc
+    · intro c hc h0
+      rcases List.mem_append.1 hc with hc | hc
+      · exact h.pos c hc h0
+      · exact hpos c hc h0
+  · rw [if_neg he]
+    by_cases had : isEmpty u.gadget = true ∧ src.tt = .h8 ∧ src.lgK ≤ u.lgMaxK ∧ (src.mode = .hll ∨ src.lgK = u.lgMaxK)
+    · rw [if_pos had]
+      obtain ⟨hge, h8, _, hdis⟩ := had
+      -- the adopted sketch is a good gadget for its own coupons
+      have hsk : src.lgK = lgMaxK := by
+        by_cases hm : src.mode = .hll
+        · exact (hsh hm).1.lgk
+        · rcases hdis with hd | hd
+          · exact absurd hd hm
+          · exact hd.trans hu
+      have hgs : GInv p lgMaxK src scs := by
+        refine ⟨hsk, h8, hpos, fun hm => ⟨scs, ?_, fun _ _ => Iff.rfl⟩, fun hm => (hsh hm).2.toGH hm h8⟩
+        have := hsl hm
+        rw [hsk] at this; exact this
+      have hz := h.empty_content hge
+      have hposall : ∀ c, c ∈ cs ++ scs → c ≠ 0 → 0 < cValue p c := by
+        intro c hc h0
+        rcases List.mem_append.1 hc with hc | hc
+        · exact h.pos c hc h0
+        · exact hpos c hc h0
+      by_cases hgm : u.gadget.mode = .hll
+      · have r := GInv.unionImpl hp hkb (u := { u with gadget := src }) hu hgs u.gadget cs
+          (fun hm => absurd hgm hm) (fun _ => SrcH.of_GH (h.hll hgm) h.lgk hkb) h.pos
+        refine ⟨r.1.congr ?_ hposall, r.2⟩
+        intro c _; simp only [List.mem_append]; exact Or.comm
+      · obtain ⟨cs0, hr0, hmem0⟩ := h.nonhll hgm
+        have r := GInv.unionImpl hp hkb (u := { u with gadget := src }) hu hgs u.gadget cs0
+          (fun _ => by rw [h.lgk]; exact hr0) (fun hm => absurd hm hgm)
+          (fun c hc h0 => h.pos c ((hmem0 c h0).1 hc) h0)
+        refine ⟨r.1.congr ?_ hposall, r.2⟩
+        intro c hc
+        simp only [List.mem_append]
+        rw [hmem0 c hc]; exact Or.comm
+    · rw [if_neg had]
+      exact h.unionImpl hp hkb hu src scs hsl (fun hm => (hsh hm).1) hpos
+
 theorem GInv.touch {p : Params} {lgMaxK : Nat} {g : St ν} {cs : List Nat} (h : GInv p lgMaxK g cs) :
     GInv p lgMaxK (checkRebuild g) cs := by
   by_cases hm : g.mode = .hll
@@ -683,5 +777,103 @@ theorem GInv.reset {p : Params} {lgMaxK : Nat} {g : St ν} {cs : List Nat} (h : 
   · rw [if_neg hsf, h.lgk, h.tt8]
     refine ⟨rfl, rfl, by simp, fun _ => ⟨[], RInv.init p lgMaxK .h8, by simp⟩, fun hmm => ?_⟩
     simp [newList] at hmm
+
+/-! ### G. whole histories -/
+
+/-- the histories for which the full statements ARE proved: lvalue or rvalue updates whose HLL-mode inputs have exactly lg_k = lg_max_k
+(LIST / SET inputs of any lg_k), raw items, estimate calls and resets in any interleaving; coupons are genuine (a nonzero
+coupon has a positive value, as every `HllUtil::coupon` has). What is missing for the full statements is exactly the two
+defects: inputs that force a precision reduction (D1, and D14 after a reset). -/
+def NoReduction (ν : Type) [HNum ν] (p : Params) (lgMaxK : Nat) (ops : List UOp) : Prop :=
+  ∀ op, op ∈ ops → match op with
+    | .merge d _ => d.lgK ≤ p.keyBits ∧ ((d.build p : St ν).mode = .hll → d.lgK = lgMaxK) ∧
+        ∀ c, c ∈ d.cs → c ≠ 0 → 0 < cValue p c
+    | .coupon c => c ≠ 0 → 0 < cValue p c
+    | _ => True
+
+theorem union_gadget_inv_aux (p : Params) (hp : p.listFitsSet) (lgMaxK : Nat) (hkb : lgMaxK ≤ p.keyBits) :
+    ∀ (ops : List UOp) (u : Un ν) (cs : List Nat), u.lgMaxK = lgMaxK → GInv p lgMaxK u.gadget cs → NoReduction ν p lgMaxK ops →
+      GInv p lgMaxK (uRun p u ops).gadget (ops.foldl offeredStep cs) ∧ (uRun p u ops).lgMaxK = lgMaxK
+  | [], u, cs, hu, hg, _ => ⟨hg, hu⟩
+  | op :: ops, u, cs, hu, hg, hok => by
+    have hop := hok op List.mem_cons_self
+    have hrest : NoReduction ν p lgMaxK ops := fun o ho => hok o (List.mem_cons_of_mem _ ho)
+    have step : GInv p lgMaxK (uStep p u op).gadget (offeredStep cs op) ∧ (uStep p u op).lgMaxK = lgMaxK := by
+      cases op with
+      | coupon c =>
+        exact ⟨hg.coupon hp c hop, hu⟩
+      | touch => exact ⟨hg.touch, hu⟩
+      | reset => exact ⟨hg.reset, hu⟩
+      | merge d rv =>
+        obtain ⟨hdk, hdl, hdv⟩ := hop
+        show GInv p lgMaxK (uStep p u (.merge d rv)).gadget (cs ++ d.cs) ∧ (uStep p u (.merge d rv)).lgMaxK = lgMaxK
+        have hemp : isEmpty (d.build p : St ν) = true → ∀ c, c ∈ d.cs → c = 0 :=
+          (isEmpty_run_iff (ν := ν) p hp d.lgK d.tt d.sf d.cs hdv).1
+        cases hsf : d.sf with
+        | false =>
+          have hR := RInv.run hp d.cs (RInv.init (ν := ν) p d.lgK d.tt)
+          simp only [List.nil_append] at hR
+          have hb : (d.build p : St ν) = run p (newList p d.lgK d.tt) d.cs := by
+            unfold SkDesc.build newSketch; rw [hsf]; rfl
+          rw [hb] at hemp hdl
+          cases rv with
+          | false =>
+            show GInv p lgMaxK (unionUpdate p u (d.build p)).gadget (cs ++ d.cs) ∧ (unionUpdate p u (d.build p)).lgMaxK = lgMaxK
+            rw [hb]
+            exact hg.unionUpdate hp hkb hu _ d.cs (fun _ => by rw [hR.lgK_eq]; exact hR)
+              (fun hm => SrcH.of_HInv hm (hR.hll hm) (hR.lgK_eq.trans (hdl hm)) hkb) hdv hemp
+          | true =>
+            show GInv p lgMaxK (unionUpdateRv p u (d.build p)).gadget (cs ++ d.cs) ∧ (unionUpdateRv p u (d.build p)).lgMaxK = lgMaxK
+            rw [hb]
+            exact hg.unionUpdateRv hp hkb hu _ d.cs (fun _ => by rw [hR.lgK_eq]; exact hR)
+              (fun hm => ⟨SrcH.of_HInv hm (hR.hll hm) (hR.lgK_eq.trans (hdl hm)) hkb, hR.hll hm⟩) hdv hemp
+        | true =>
+          have hS := run_startFull p d.cs (s := (newHll d.lgK d.tt true : St ν)) (cs := []) rfl
+            (by have := HInv.newHll (ν := ν) p d.lgK d.tt true
+                exact ⟨this.size, fun slot hs => IsMaxAt.congr (by simp) (this.regs slot hs), this.cm_le, this.cnt4, this.cnt68⟩)
+          simp only [List.nil_append] at hS
+          have hb : (d.build p : St ν) = run p (newHll d.lgK d.tt true) d.cs := by
+            unfold SkDesc.build newSketch; rw [hsf]; rfl
+          rw [hb] at hemp hdl
+          cases rv with
+          | false =>
+            show GInv p lgMaxK (unionUpdate p u (d.build p)).gadget (cs ++ d.cs) ∧ (unionUpdate p u (d.build p)).lgMaxK = lgMaxK
+            rw [hb]
+            exact hg.unionUpdate hp hkb hu _ d.cs (fun hm => absurd hS.1 hm)
+              (fun hm => SrcH.of_HInv hm hS.2.2.2 (hS.2.1.trans (hdl hm)) hkb) hdv hemp
+          | true =>
+            show GInv p lgMaxK (unionUpdateRv p u (d.build p)).gadget (cs ++ d.cs) ∧ (unionUpdateRv p u (d.build p)).lgMaxK = lgMaxK
+            rw [hb]
+            exact hg.unionUpdateRv hp hkb hu _ d.cs (fun hm => absurd hS.1 hm)
+              (fun hm => ⟨SrcH.of_HInv hm hS.2.2.2 (hS.2.1.trans (hdl hm)) hkb, hS.2.2.2⟩) hdv hemp
+    have ih := union_gadget_inv_aux p hp lgMaxK hkb ops (uStep p u op) (offeredStep cs op) step.2 step.1 hrest
+    simpa [uRun] using ih
+
+/-- coupons offered by a history without resets -/
+theorem mem_offered_aux : ∀ (ops : List UOp) (acc : List Nat) (c : Nat),
+    (∀ o, o ∈ ops → o ≠ .reset) →
+    (c ∈ ops.foldl offeredStep acc ↔ (c ∈ acc ∨ ∃ o, o ∈ ops ∧ c ∈ offeredStep [] o))
+  | [], acc, c, _ => by simp
+  | o :: ops, acc, c, hnr => by
+    simp only [List.foldl_cons]
+    rw [mem_offered_aux ops (offeredStep acc o) c (fun x hx => hnr x (List.mem_cons_of_mem _ hx))]
+    have ho := hnr o List.mem_cons_self
+    have e : c ∈ offeredStep acc o ↔ (c ∈ acc ∨ c ∈ offeredStep [] o) := by
+      cases o with
+      | merge d rv => simp [offeredStep]
+      | coupon x => simp [offeredStep]
+      | touch => simp [offeredStep]
+      | reset => exact absurd rfl ho
+    rw [e]
+    simp only [List.mem_cons]
+    constructor
+    · rintro ((h1 | h1) | ⟨x, hx, h1⟩)
+      · exact Or.inl h1
+      · exact Or.inr ⟨o, Or.inl rfl, h1⟩
+      · exact Or.inr ⟨x, Or.inr hx, h1⟩
+    · rintro (h1 | ⟨x, rfl | hx, h1⟩)
+      · exact Or.inl (Or.inl h1)
+      · exact Or.inl (Or.inr h1)
+      · exact Or.inr ⟨x, hx, h1⟩
 
 end DS.Hll
